@@ -99,6 +99,7 @@ def readDim (s : DState) (dn : Nat) : Json :=
     ("index", match ln.bind (look s.index) with
       | some iv => Json.arr (iv.map fun i => Json.num (JsonNumber.fromInt i)).toArray
       | none => Json.null),
+    ("link_type", match ln with | some _ => Json.str (linkType g dn) | none => Json.null),
     ("target", match ln, linkTarget g dn with
       | some _, some t => Driver.Store.ident g t
       | some _, none => Json.str "dangling"
@@ -131,6 +132,24 @@ def step (s : DState) (j : Json) : DState × Json :=
   | [.str "dim_link", pj, ij, tj, ivj] =>
     match Driver.Store.parsePath pj, jInt? ij, Driver.Store.resolveKey g tj, parseInts ivj with
     | some p, some i, some t, some iv => applyS s (linkDataArray s p i.toNat t iv)
+    | _, _, _, _ => (s, bad "args")
+  | [.str "create_df", pj, nm, .str ty, cj, uj, rj] =>
+    let units : Option (List (Option String)) := match uj with
+      | .arr a => some (a.toList.map optStr)
+      | _ => none
+    let rows : Option (List (List Rat)) := match rj with
+      | .arr a => a.toList.mapM parseRats
+      | _ => none
+    match Driver.Store.parsePath pj, Driver.Store.parseName g nm, parseStrs cj, units, rows with
+    | some p, some name, some cols, some us, some rs => applyS s (createFrame s p name ty cols us rs)
+    | _, _, _, _, _ => (s, bad "args")
+  | [.str "df_write_col", pj, cj, vj] =>
+    match Driver.Store.parsePath pj, jInt? cj, parseRats vj with
+    | some p, some c, some vs => applyS s (writeColumn s p c.toNat vs)
+    | _, _, _ => (s, bad "args")
+  | [.str "dim_link_df", pj, ij, tj, cj] =>
+    match Driver.Store.parsePath pj, jInt? ij, Driver.Store.resolveKey g tj, jInt? cj with
+    | some p, some i, some t, some c => applyS s (linkDataFrame s p i.toNat t c)
     | _, _, _, _ => (s, bad "args")
   | [.str "dim_unlink", pj, ij] =>
     match Driver.Store.parsePath pj, jInt? ij with
